@@ -12,6 +12,10 @@ Correspondence (model = lean/PdtModel/Model/PathRes.lean through the compiled dr
   * histories: within one process the scratch tree is edited between consecutive loads of the same
     specifications (folder/file <-> outward or inward symlink, symlink retargeted); each call is compared with
     the model over the symlink map and world observed at that call and judged by the oracle at that call.
+  * the API-level comparison is order-free (sub-multiset of the model's envelope `runAll`, end = done iff nothing
+    reachable fails); the os.stat family and Path.resolve are wrapped in the watch window: stat-family calls outside
+    Path.resolve() only on successfully checked paths, resolve() calls as in the model (a stat outside the root is a
+    correspondence mismatch, not an oracle failure: C17 speaks of opening and listing).
 Oracle (does not use the model): every `open` / `os.listdir` / `os.scandir` audit event of a run is on a path
 whose real path is inside the root; a specification whose target (documented rule: `file:` ignored, leading
 `/` or `\\` anchors at the root, else relative to the including folder; joined and resolved by pathlib) is
@@ -38,8 +42,10 @@ EXTRA = {
         "POSIX pathlib semantics (CPython 3.12): a backslash is not a separator, exactly two leading slashes are kept",
         "the file system does not change between the containment check and the later open/listdir (no TOCTOU); "
         "races are outside every theorem here",
-        "a symbolic-link loop makes Path.resolve() raise RuntimeError (not LoadError); nothing is opened in that "
-        "case; modelled as such and outside the property's two clauses",
+        "a symbolic-link loop makes Path.resolve() raise RuntimeError (not LoadError, the tracker is not told); nothing "
+        "is opened in that case; modelled as such and outside the property's two clauses (DESIGN 13.5)",
+        "the resolver model is CPython <= 3.12's algorithm; on a later interpreter the resolver / function / API "
+        "correspondence is not run (oracle streams only) and the evidence says so",
         "no path component longer than NAME_MAX (a NUL character in a specification is in scope: ValueError of "
         "resolve() becomes a reported LoadError, modelled and generated)",
     ],
@@ -73,6 +79,9 @@ FILE_PATTERN = re.compile(r"(?!~\$).*\.(csv|xlsx)$", re.IGNORECASE)   # make_loa
 DECOYS = ["/etc/passwd", "/etc/hostname"]
 NONEX = ["nope", "ghost.csv", "zz", "nope", "ghost.csv", "zz", "\U0001F600.csv", "a\x85b.csv", "x\u2028y", "\ufeffq.csv",
          "\U00020000", "v\x0bw\x1c.csv"]
+# which model of `Path.resolve()` matches the running interpreter: CPython <= 3.12 gives up at a symlink loop the
+# way `FS.py312Resolve` does; 3.13 changed that (no RuntimeError in non-strict mode) and has no model here
+RESOLVER_MODEL = "py312" if sys.version_info[:2] <= (3, 12) else None
 RESOLVE_FUEL = 600
 LOOP_FUEL = 400
 
@@ -113,10 +122,13 @@ def _hook(event, args):
         # EVERY event of the window is recorded, wherever it points; the allow-list is applied afterwards.
         # The real path is taken NOW (the tree may be edited later, even during the same load)
         e = _Event(("open" if event == "open" else "listdir", ap))
+        st["busy"] = True
         try:
             e.rp = _real_now(ap)
         except Exception:      # noqa
             e.rp = None
+        finally:
+            st["busy"] = False
         st["events"].append(e)
 
 
@@ -153,19 +165,72 @@ def _install_hook():
         _AUDIT["installed"] = True
 
 
+class _Events(list):
+    """the open / listdir events of a window; `.stats` = paths handed to the os.stat family outside
+    `Path.resolve()`, `.resolves` = arguments of the `Path.resolve()` calls"""
+
+    def __init__(self):
+        super().__init__()
+        self.stats, self.resolves = [], []
+
+
+STAT_FAMILY = ["stat", "lstat", "access", "readlink"]       # os.path.exists/isdir/isfile/getsize/islink go through these
+
+
 class _Watch:
+    """window in which (1) the audit hook records every open / listdir / scandir, (2) the os.stat family
+    (os.stat, os.lstat, os.access, os.readlink — and with them os.path.exists / isdir / isfile / getsize / islink,
+    Path.stat / is_dir / exists) is wrapped and every path handed to it OUTSIDE `Path.resolve()` is recorded,
+    (3) `Path.resolve` is wrapped and its arguments recorded (what it stats and reads on the way is its business:
+    the trusted part)"""
+
     def __init__(self, T):
         self.T = T
 
     def __enter__(self):
+        import pathlib
         _AUDIT["prefix"] = self.T
         _AUDIT["cwd"] = os.getcwd()
-        _AUDIT["events"] = []
+        ev = _AUDIT["events"] = _Events()
+        self.saved = {n: getattr(os, n) for n in STAT_FAMILY}
+        self.saved_resolve = pathlib.Path.resolve
+        st = _AUDIT
+        st["in_resolve"] = 0
+
+        def wrap(name, orig):
+            def w(path, *a, **k):
+                if st["active"] and not st["in_resolve"] and not st.get("busy") and not isinstance(path, int):
+                    try:
+                        q = os.fsdecode(path)
+                        ev.stats.append(q if q.startswith("/") else st["cwd"].rstrip("/") + "/" + q)
+                    except Exception:      # noqa
+                        pass
+                return orig(path, *a, **k)
+            return w
+
+        for n, orig in self.saved.items():
+            setattr(os, n, wrap(n, orig))
+        saved_resolve = self.saved_resolve
+
+        def resolve(self_, *a, **k):
+            if st["active"] and not st["in_resolve"]:
+                ev.resolves.append(str(self_))
+            st["in_resolve"] += 1
+            try:
+                return saved_resolve(self_, *a, **k)
+            finally:
+                st["in_resolve"] -= 1
+
+        pathlib.Path.resolve = resolve
         _AUDIT["active"] = True
-        return _AUDIT["events"]
+        return ev
 
     def __exit__(self, *a):
+        import pathlib
         _AUDIT["active"] = False
+        for n, orig in self.saved.items():
+            setattr(os, n, orig)
+        pathlib.Path.resolve = self.saved_resolve
         ev, allow, T = _AUDIT["events"], _AUDIT["allow"], self.T
         keep = []
         for e in ev:
@@ -176,6 +241,16 @@ class _Watch:
                     continue
             keep.append(e)
         ev[:] = keep
+        def allowed(q):
+            try:
+                rq = os.path.realpath(q)
+            except Exception:      # noqa  (e.g. an embedded NUL)
+                return False
+            # also the folders ABOVE an interpreter prefix (realpath of sys.prefix walks them), unless they are
+            # above the scratch dir as well
+            return any(inside(rq, a) or (inside(a, rq) and not inside(T, rq)) for a in allow)
+
+        ev.stats = [q for q in ev.stats if inside(q, T) or not allowed(q)]
 
 
 # --------------------------------------------------------------------------- scratch tree
@@ -668,7 +743,11 @@ def impl_load(T, root_arg, roots, raising, protocol_loaders=None, after_first_ta
                     if bt == BlockType.TABLE:
                         tables.append(b.name)
                         if after_first_table is not None and len(tables) == 1:
-                            after_first_table()          # the consumer edits the tree while the load is suspended
+                            _AUDIT["active"] = False     # the consumer edits the tree while the load is suspended
+                            try:
+                                after_first_table()
+                            finally:
+                                _AUDIT["active"] = True
             end = "done"
         except LoadError:
             end = {"exc": "LoadError"}
@@ -682,7 +761,7 @@ def impl_load(T, root_arg, roots, raising, protocol_loaders=None, after_first_ta
     if tracker is not None:
         for i in tracker.lst:
             note(i)
-    return end, list(events), tables, refused
+    return end, events, tables, refused
 
 
 # --------------------------------------------------------------------------- the run
@@ -738,7 +817,13 @@ def run(tier, seed, model_ok, translator, search=False):
         os.chdir(T)
         fs = snapshot_fs(T, DECOYS)
         _pathlib_cases(rng, T, n_parse, ops, pend, out)
-        _realpath_cases(rng, T, fs, n_parse // 3, ops, pend, out)
+        if RESOLVER_MODEL is None:
+            out.notes.append("no model of Path.resolve() for Python %d.%d: the resolver, function-level and API-level "
+                             "correspondence is NOT run on this interpreter; the oracle streams are"
+                             % sys.version_info[:2])
+            model_ok = False
+        else:
+            _realpath_cases(rng, T, fs, n_parse // 3, ops, pend, out)
         _function_cases(rng, T, seed, fs, n_fn, ops, pend, out, model_ok)
         os.chdir(old_cwd)
         fs = snapshot_fs(T, DECOYS)
@@ -751,7 +836,10 @@ def run(tier, seed, model_ok, translator, search=False):
                 if isinstance(ans, dict) and "error" in ans:
                     out.mismatch("driver error: " + what, case, impl, ans)
                     continue
-                m = post(ans) if post else ans
+                try:
+                    m = post(ans, impl) if post else ans
+                except TypeError:
+                    m = post(ans)
                 if m != impl:
                     out.mismatch(what, case, impl, m)
     finally:
@@ -886,7 +974,6 @@ def _exec_function(T, fs, case, out, ops, pend, model_ok):
     spec, src, null_folder = untok(case["spec"], T), untok(case["src"], T), case.get("null_folder", False)
     with _Watch(T) as events:
         impl = impl_resolve(root, spec, src, null_folder)
-    events = list(events)
     key = ("ok" if "ok" in impl else impl["exc"])
     out.count("fn:" + rk.split("_")[0] + ":" + key)
     for t in tags:
@@ -923,8 +1010,11 @@ def _exec_function(T, fs, case, out, ops, pend, model_ok):
                                        ":out" if want[0] == "path" else ""))
         case["want"] = want[0]
     if model_ok:
-        ops.append({"op": "pathres_resolve_item", "root": root, "spec": spec, "src": src, "fs": fs})
-        pend.append(("_resolve_load_item_path vs resolveLoadItem", case, impl, lambda a: a["res"]))
+        ops.append({"op": "pathres_resolve_item", "resolver": RESOLVER_MODEL, "root": root, "spec": spec, "src": src, "fs": fs})
+        pend.append(("_resolve_load_item_path vs resolveLoadItem (result, Path.resolve() calls, no other stat-family "
+                     "access)", case, {"res": impl, "stats": list(events.stats), "resolves": list(events.resolves)},
+                     lambda a: {"res": a["res"], "stats": [],
+                                "resolves": [e[1] for e in a["trace"] if e[0] == "resolve"]}))
 
 
 PLACEMENTS = ["root_item", "root_item", "include_root", "include_root", "include_nested", "include_nested",
@@ -941,6 +1031,58 @@ PARENT_TARGETS_ROOTED = ["/../secret_top.csv", "FILE:/../secret_top.csv", "\\../
 PARENT_TARGETS_RELATIVE = ["../secret_top.csv", "file:../secret_top.csv", "..//secret_top.csv", "./../secret_top.csv",
                            "../outside", "../outside/", "../root2", "sub/../../secret_top.csv", "../outside/secret.csv",
                            "../root2/e.csv", "../croot/../outside", "../root/a.csv"]
+
+
+def _impl_record(end, events):
+    return {"end": end, "events": [[k, q] for k, q in events], "stats": list(events.stats),
+            "resolves": list(events.resolves)}
+
+
+def _load_verdict(out):
+    """ORDER-FREE comparison of one fully consumed load with the model (returns the post-processor for the
+    driver's answer: the implementation's own record when consistent, a diagnosis otherwise).  The order in which
+    a folder's children or the work-list are taken is not part of C17; what is compared is
+      * open / listdir events: a sub-multiset of the model's envelope (everything reachable, `runAll`), equal to
+        it when nothing reachable fails;
+      * the end: `done` iff nothing reachable fails, else one of the exception classes the envelope meets;
+      * `Path.resolve()` calls: a sub-multiset of the envelope's;
+      * os.stat-family calls outside `Path.resolve()`: only on paths the envelope has checked successfully
+        (the `stat` clause of no_access_before_check / trace_inside).
+    Whether the exact order also agrees with the model's LIFO run is counted, not judged."""
+    from collections import Counter
+
+    def post(a, impl):
+        ev_all = Counter((e[0], e[1]) for e in a["all_trace"] if e[0] in ("open", "listdir"))
+        ev_impl = Counter((k, q) for k, q in impl["events"])
+        why = []
+        if not a.get("all_complete", True):
+            why.append("model envelope ran out of fuel")
+        if ev_impl - ev_all:
+            why.append("events outside the model's envelope: " + str(sorted((ev_impl - ev_all).elements())[:4]))
+        errs = set(a["all_errors"])
+        if not errs:
+            if impl["end"] != "done":
+                why.append("ended in an exception although nothing reachable fails in the model")
+            elif ev_impl != ev_all:
+                why.append("events missing: " + str(sorted((ev_all - ev_impl).elements())[:4]))
+        elif not (isinstance(impl["end"], dict) and impl["end"].get("exc") in errs):
+            why.append("end %r is none of the exceptions the model meets %s" % (impl["end"], sorted(errs)))
+        res_all = Counter(e[1] for e in a["all_trace"] if e[0] == "resolve")
+        res_impl = Counter(impl["resolves"])
+        if res_impl - res_all:
+            why.append("Path.resolve() calls the model does not make: " + str(sorted((res_impl - res_all).elements())[:4]))
+        checked = {e[1] for e in a["all_trace"] if e[0] == "check" and e[2]}
+        bad = [q for q in impl["stats"] if q not in checked]
+        if bad:
+            why.append("os.stat-family access (outside Path.resolve) on a path without successful check: " + str(bad[:4]))
+        exact = (a["end"] == impl["end"] and
+                 [e[:2] for e in a["trace"] if e[0] in ("open", "listdir")] == impl["events"])
+        out.count("order:" + ("as-model-LIFO" if exact else "other-order-or-envelope"))
+        if why:
+            return {"why": why, "model_end": a["end"], "model_errors": sorted(errs),
+                    "model_events": sorted(ev_all.elements())[:12]}
+        return impl
+    return post
 
 
 def _judge_load(out, case, T, root, spec, planted_src, raising, end, events, got_tables, refused, tables):
@@ -1138,7 +1280,14 @@ def _api_cases(rng, T, tables, seed, fs, n, ops, pend, out, model_ok):
             else:
                 roots = [f"/ln_in_abs/inc{idx}.csv"]        # the including file is reached through a symlinked folder
             planted_src, plant_file = folder, inc
-        x = {"root": root, "root_as": root_as, "raising": raising, "roots": roots, "spec": spec,
+        root_kind, roots_as_path = None, False
+        if root == T + "/root" and placement != "witness" and rng.random() < 0.12:
+            root_kind = rng.choice(["trailing", "dotted", "symlink_alias", "dotdot", "dslash", "relative",
+                                    "symlink_alias", "dotdot", "dslash", "relative"])
+        if roots and protocol != "mem" and rng.random() < 0.2:
+            roots_as_path = True                  # root items handed over as Path objects
+        x = {"root_kind": root_kind, "roots_as_path": roots_as_path,
+             "root": root, "root_as": root_as, "raising": raising, "roots": roots, "spec": spec,
              "planted_src": planted_src, "plant_file": plant_file, "csv": csv_files, "xlsx": xlsx_files,
              "protocol": protocol, "mem_lines": mem_lines}
         case = {"level": "api", "seed": seed, "index": idx, "placement": placement, "spec": tok(spec, T),
@@ -1156,10 +1305,23 @@ def _exec_api(T, tables, fs, case, out, ops, pend, model_ok):
     x = untok(case["x"], T)
     root, roots, spec, raising = x["root"], x["roots"], x["spec"], x["raising"]
     planted_src, tags, placement = x["planted_src"], case.get("tags", []), case.get("placement", "?")
-    root_arg = root if x["root_as"] == "str" else Path(root)
+    kind = x.get("root_kind")
+    root_txt = make_root(kind, T) if kind else root          # the root as written by the caller
+    noncanon = kind is not None and kind not in ("trailing", "dotted")
+    root_arg = root_txt if x["root_as"] == "str" else Path(root_txt)
+    impl_roots = roots
+    if x.get("roots_as_path") and roots and all(str(Path(r)) == r for r in roots if r != spec):
+        # (companions of the planted specification keep their meaning only if str(Path(r)) == r: `file:/` would
+        # become `file:`)
+        impl_roots = [Path(r) for r in roots]
+        eff = [str(q) for q in impl_roots]                   # what load_files makes of them: str(Path(...))
+        if spec in roots:
+            spec = eff[roots.index(spec)]
+        roots = eff
     protocol_loaders = {"mem": mem_loader(x["mem_lines"])} if x["protocol"] == "mem" else \
         ({} if x["protocol"] == "empty" else None)
     created = []
+    old_cwd = os.getcwd()
     if model_ok and T not in _WORLD_BASE:      # the tree is static during the API stream apart from `created`
         _WORLD_BASE[T] = snapshot_world(T)
     try:
@@ -1173,11 +1335,27 @@ def _exec_api(T, tables, fs, case, out, ops, pend, model_ok):
         if x["plant_file"] is not None and spec not in include_lines(x["plant_file"]):
             out.count("api:not-plantable")
             planted_src = "unplantable"
-        end, events, got_tables, refused = impl_load(T, root_arg, roots, raising, protocol_loaders)
+        if kind == "relative":
+            os.chdir(T)                           # a relative root means something only relative to a cwd
+            fs = snapshot_fs(T, DECOYS) if fs is not None else None
+        end, events, got_tables, refused = impl_load(T, root_arg, impl_roots, raising, protocol_loaders)
         evs = [[k, p] for k, p in events]
         out.count("api:" + placement + ":" + (end if isinstance(end, str) else end["exc"]))
-        hostile = bool(set(tags) - {"plain", "rooted", "relative", "default"}) or end != "done"
+        if kind:
+            out.count("api:root-as-written:" + kind)
+        if impl_roots is not roots and roots:
+            out.count("api:roots-as-Path")
+        hostile = bool(set(tags) - {"plain", "rooted", "relative", "default"}) or end != "done" or noncanon
         out.case(case, nontrivial=hostile)
+        if noncanon:
+            # a root that is not canonical as written: nothing at all may be touched, everything is refused
+            if len(events):
+                out.fail("a load with a non-canonical root folder opened or listed something", case,
+                         [[k, tok(q, T)] for k, q in events], [], key="api:noncanonical-root-access")
+            if end == "done" and roots != []:
+                out.fail("a load with a non-canonical root folder accepted a specification", case, end,
+                         "LoadError", key="api:noncanonical-root-accepted")
+            planted_src = "unplantable"
         _judge_load(out, case, T, root, spec, planted_src, raising, end, events, got_tables, refused, tables)
         if x["protocol"] == "empty" and protocol_loaders != {}:
             out.count("api:caller-dict-changed")
@@ -1185,14 +1363,13 @@ def _exec_api(T, tables, fs, case, out, ops, pend, model_ok):
             world = world_plus(_WORLD_BASE[T], created)
             # a `mem:` source opens nothing and has no folder: its include lines are items without a source,
             # pushed in order — exactly what root items are in the model
-            ops.append({"op": "pathres_load", "root": str(root_arg),
+            ops.append({"op": "pathres_load", "resolver": RESOLVER_MODEL, "root": str(root_arg),
                         "roots": x["mem_lines"] if x["mem_lines"] is not None else roots, "fs": fs, "world": world,
                         "tracker_raises": raising, "loop_fuel": LOOP_FUEL})
             pend.append(("load_files vs loadFiles (end, open/listdir events in order)", case,
-                         {"end": end, "events": evs},
-                         lambda a: {"end": a["end"],
-                                    "events": [e[:2] for e in a["trace"] if e[0] in ("open", "listdir")]}))
+                         _impl_record(end, events), _load_verdict(out)))
     finally:
+        os.chdir(old_cwd)
         for p in created:
             try:
                 os.remove(p)
@@ -1334,12 +1511,10 @@ def _exec_history(T, htables, base_case, out, ops, pend, model_ok):
                 continue
             _judge_load(out, case, T, root, spec, None, raising, end, events, got_tables, refused, htables)
             if model_ok:
-                ops.append({"op": "pathres_load", "root": str(root_arg), "roots": roots, "fs": fs, "world": world,
+                ops.append({"op": "pathres_load", "resolver": RESOLVER_MODEL, "root": str(root_arg), "roots": roots, "fs": fs, "world": world,
                             "tracker_raises": raising, "loop_fuel": LOOP_FUEL})
                 pend.append(("load_files vs loadFiles after tree edits (end, open/listdir events in order)", case,
-                             {"end": end, "events": [[k, q] for k, q in events]},
-                             lambda a: {"end": a["end"],
-                                        "events": [e[:2] for e in a["trace"] if e[0] in ("open", "listdir")]}))
+                             _impl_record(end, events), _load_verdict(out)))
 
 
 def _shared_loader_dict_cases(T, tables, seed, n, ops, pend, out, model_ok):
@@ -1384,12 +1559,10 @@ def _exec_shared(T, tables, base_case, out, ops, pend, model_ok):
         if sorted(shared) != keys_before:
             out.count("shared:caller-dict-changed")
         if model_ok:
-            ops.append({"op": "pathres_load", "root": str(root_arg), "roots": roots, "fs": fs, "world": world,
+            ops.append({"op": "pathres_load", "resolver": RESOLVER_MODEL, "root": str(root_arg), "roots": roots, "fs": fs, "world": world,
                         "tracker_raises": raising, "loop_fuel": LOOP_FUEL})
             pend.append(("load_files (shared protocol-loader dict, own root) vs loadFiles", case,
-                         {"end": end, "events": [[k, q] for k, q in events]},
-                         lambda a: {"end": a["end"],
-                                    "events": [e[:2] for e in a["trace"] if e[0] in ("open", "listdir")]}))
+                         _impl_record(end, events), _load_verdict(out)))
 
 
 def replay(rep):
